@@ -15,6 +15,7 @@ import os
 import re
 from fractions import Fraction
 import vlib
+import c02cls
 
 SUB = "c02.sub"
 PROBE = "c02.probe"
@@ -890,6 +891,8 @@ def run(ctx):
                     tightened_expected_reject=tot("tight_rejects"), tightened_expected_accept=tot("tight_accepts"),
                     membership_checks=tot("member_checks"), stale_narrowing_reports=tot("stale"), model_stuck=tot("model_stuck"),
                     value_mismatches_attributed_to_C08_typed_float_opcodes=tot("foreign_c08")))
+    # ---- c02.cls
+    c02cls.run_stream(ctx, elk, h, m)
     if stg["programs"] and stg["executed"] * 4 < stg["programs"]:
         ctx.broke("correspondence %s: fewer than a quarter of the generated programs were executed (%d of %d; model rejected %d)"
                   % (PROBE, stg["executed"], stg["programs"], stg["model_rejected"]))
